@@ -297,6 +297,33 @@ def case_normidx(ctx, inp):
     if not np_ok:
         ctx.fail("normalize_index accepted an index NumPy rejects", observed=[repr(o)[:40] for o in out])
         return
+    # the whole result against the Lean model `NormIndex.normalizeIndex`
+    def _enc(k, v):
+        if k == "slice":
+            return [Sym("sl"), v]
+        if k == "int":
+            return [Sym("int"), int(v)]
+        if k == "none":
+            return [Sym("newaxis")]
+        if k == "ellipsis":
+            return [Sym("ellipsis")]
+        if k == "bool":
+            return [Sym("mask"), [bool(t) for t in v]]
+        return [Sym("lst"), [int(t) for t in v]]
+
+    def _dec(o):
+        if o is None:
+            return ["newaxis"]
+        if isinstance(o, slice):
+            return ["sl", canon_slice(o)]
+        if isinstance(o, (int, np.integer)):
+            return ["int", int(o)]
+        return ["lst", [int(t) for t in np.asarray(o).tolist()]]
+
+    if all(k in ("slice", "int", "none", "ellipsis", "bool") or (k == "list" and v) for k, v in inp["index"]):
+        model = unsym(ctx.lean(Sym("normindex"), list(shape), [_enc(k, v) for k, v in inp["index"]]))
+        ctx.eq("normalize_index (whole result)", model, ["ok", [_dec(o) for o in out]])
+        ctx.branch("normidx-model-diffed")
     # reference expansion: Ellipsis -> colons, pad with colons
     kinds = inp["index"]
     nreal = sum(1 for k, _ in kinds if k not in ("none", "ellipsis"))
@@ -326,7 +353,7 @@ def case_normidx(ctx, inp):
             want = unsym(ctx.lean(Sym("posify"), n, v))
             ctx.eq("normalize_index int entry", want, ["ok", int(o)] if isinstance(o, (int, np.integer)) else ["other", repr(o)[:30]])
         else:
-            exp = [i + n if i < 0 else i for i in v]
+            exp = [j for j, t in enumerate(v) if t] if k == "bool" else [i + n if i < 0 else i for i in v]
             got = np.asarray(o).tolist() if hasattr(o, "tolist") or isinstance(o, list) else None
             if got != exp:
                 ctx.fail("normalize_index: integer list not posified", observed=got, expected=exp)
@@ -1020,7 +1047,7 @@ def generate(ctx):
     # (2c) normalize_index on basic / integer-list indices, incl. too many indices and out-of-bounds entries
     for _ in range(ctx.n(350, 6000)):
         shape, _chunks = _rand_nd(rng, zero=0.05)
-        spec = [e for e in _rand_nd_index(rng, shape) if e[0] in ("slice", "int", "none", "ellipsis", "list")]
+        spec = [e for e in _rand_nd_index(rng, shape) if e[0] in ("slice", "int", "none", "ellipsis", "list", "bool")]
         t = rng.random()
         if t < 0.08:
             spec.append(("slice", [None, None, None]))        # possibly one index too many
